@@ -9,6 +9,7 @@ import Wheatley.Lemmas.NumField
 import Wheatley.Lemmas.Rhythm
 import Wheatley.Model.Solo
 import Wheatley.Lemmas.SoloWorld
+import Wheatley.Lemmas.Cli
 namespace Wheatley.C11
 open Generated
 
@@ -322,5 +323,15 @@ example : AloneFor ({ stage := 4, gap := 1, start := 103, interval := 1 / 4 } : 
   · rw [e0, e1, e2, e3]; simp [indexToBlowTime]
   · rw [e2, e3]; simp [indexToRealTime, blowTimeToRealTime, indexToBlowTime, num_ofQ, tickSleep]; norm_num
 
+
+/-! ### The command line (`Model/Cli.lean`: `console_main`) -/
+
+/-- The rhythm is built with the minutes that the last `-S` given (else the default) parses to, and with the last
+`-G` given (else the default) as handstroke gap. -/
+theorem cli_speed_and_gap (c : Parse.Chars) (os : List Cli.Opt) (u : Option (List Char × List Char)) (cfg : Cli.Cfg)
+    (h : Cli.consoleMain c os u = .built cfg) :
+    Parse.pealSpeed c ((Cli.speedsGiven os).getLast?.getD Generated.cliPealSpeed.toList) = .ok cfg.pealSpeed ∧
+    cfg.gap = (Cli.gapsGiven os).getLast?.getD Generated.cliGapBits :=
+  ⟨(Cli.main_built c os u cfg h).2.2.2.2.2.2.2.2.2, (Cli.main_built c os u cfg h).2.2.2.2.2.1⟩
 
 end Wheatley.C11
